@@ -30,9 +30,9 @@ def Gate (g : Globals) (m : Machine) (acct : RtAcct) (next : Nat) (act : Action)
 /-- `x` is a target the machine can move to from its current state: a target listed in one of the
     transition vectors of the current state (or END) -/
 def TargetOK (s : Fw σ) (mi : Nat) (x : Nat) : Prop :=
-  ∃ (m : Machine) (r : Runtime) (st : State) (ev : Nat) (vec : List Trans) (t : Trans),
+  (∃ (m : Machine) (r : Runtime) (st : State) (ev : Nat) (vec : List Trans) (t : Trans),
     s.machines[mi]? = some m ∧ s.rt[mi]? = some r ∧ m.states[r.currentState]? = some st ∧
-    st.transitions[ev]? = some (some vec) ∧ t ∈ vec ∧ t.target = x
+    st.transitions[ev]? = some (some vec) ∧ t ∈ vec ∧ t.target = x) ∧ x ≠ STATE_SIGNAL
 
 /-- primitive state changes made on behalf of machine `mi` -/
 inductive Step (mi : Nat) : Fw σ → Fw σ → Prop
